@@ -499,7 +499,12 @@ class GraphParser:
                 if node == '':
                     chain.append(node)
                     continue
-                node = self.REC_NODE_OUT_OF_RANGE.sub('', node)
+                # Remove out-of-range nodes (repeat: after a leading node and
+                # its operator have gone, the next node is the leading one).
+                while True:
+                    node, n_subs = self.REC_NODE_OUT_OF_RANGE.subn('', node)
+                    if not n_subs:
+                        break
                 if node == '':
                     # For "foo => bar<err> => baz", stop at "bar<err>"
                     break
